@@ -15,7 +15,8 @@ Q(a,b) == Norm(a,b)
 Daisy == [daisy_a |-> [step |-> 1, radius |-> 15, rings |-> 2, histograms |-> 2, orientations |-> 8],
           daisy_b |-> [step |-> 4, radius |-> 10, rings |-> 1, histograms |-> 3, orientations |-> 4],
           daisy_c |-> [step |-> 3, radius |-> 7, rings |-> 3, histograms |-> 2, orientations |-> 2]]
-Simple == {"gradient", "gaussian_filter", "igo", "double_igo", "es", "no_op", "normalize_std", "normalize_norm", "normalize_var",
+\* ("gaussian_filter_0": the degenerate-but-legal sigma 0 - the identity filter, still a NEW image)
+Simple == {"gradient", "gaussian_filter", "gaussian_filter_0", "igo", "double_igo", "es", "no_op", "normalize_std", "normalize_norm", "normalize_var",
            "igo_of_gaussian", "normalize_std_of_gradient", "gradient_of_no_op"}
 IsDaisy(f) == f \in DOMAIN Daisy
 CeilDiv(a, b) == -((-a) \div b)
